@@ -117,7 +117,7 @@ PROPS = {
     },
     "C13": {
         "props_files": ["C13"],
-        "theorems": ["C13_request_refines_spec", "C13_failed_request_changes_nothing", "C13_one_response_per_request_in_order",
+        "theorems": ["C13_request_refines_spec", "C13_location_is_native_path", "C13_failed_request_changes_nothing", "C13_one_response_per_request_in_order",
                      "C13_first_failure_stops_execution", "C13_all_executed_without_failure", "C13_cases_exhaustive",
                      "C13_loop_total", "C13_tree_stays_tree"],
         "components": ["fsmodel"],
